@@ -8,24 +8,87 @@ Contracts assumed (part of every claim that uses them):
  * a directory is the set of MemFS names below a prefix;
  * print(..., file=f) is f.write(sep.join(map(str, args)) + end);
  * messages written to stderr have no effect on results; stdout text is collected and returned;
- * gzip.open / tempfile.NamedTemporaryFile inside misc.gunzip read and write MemFS with the real
-   zlib codec (concrete bytes only).
+ * every in-memory file is also written to a per-process scratch directory (the current directory while
+   a path runs; removed at exit) and reads fall back to it, so misc.gunzip (gzip, tempfile) and any code
+   that reaches the file system through another API than the stubbed open() work on real files.
 """
+import atexit as _atexit
+import builtins as _builtins
 import gzip as _gzip
 import io as _io
+import os as _os
+import shutil as _shutil
+import tempfile as _tempfile
+
+_realopen = _builtins.open
 
 from trees import (grammar, grammarinput, grammaroutput, misc, transform, transitionoutput,
                    transitions, treeanalysis, treeinput, treeoutput)
 
 
+class _Files(dict):
+    """name -> bytes.  The in-memory view is authoritative for everything that goes through the stubbed open();
+    it is backed by a per-process scratch directory (the current directory while a path runs), so that code which
+    reaches the file system through another API than the stubbed ones still finds its inputs and leaves its outputs
+    where the harness looks for them: writes go through to the real file, reads fall back to it."""
+
+    def __setitem__(self, name, data):
+        dict.__setitem__(self, name, data)
+        try:
+            d = _os.path.dirname(name)
+            if d and not _os.path.isabs(name):
+                _os.makedirs(d, exist_ok=True)
+            if not _os.path.isabs(name):
+                with _realopen(name, "wb") as f:
+                    f.write(data)
+        except OSError:
+            pass
+
+    def __contains__(self, name):
+        return dict.__contains__(self, name) or (isinstance(name, str) and _os.path.isfile(name))
+
+    def __getitem__(self, name):
+        if dict.__contains__(self, name):
+            return dict.__getitem__(self, name)
+        if isinstance(name, str) and _os.path.isfile(name):
+            with _realopen(name, "rb") as f:
+                return f.read()
+        raise KeyError(name)
+
+    def names(self):
+        out = set(dict.keys(self))
+        for root, _dirs, fs in _os.walk("."):
+            if root.startswith("./tmp"):
+                continue
+            for f in fs:
+                out.add(_os.path.normpath(_os.path.join(root, f)))
+        return sorted(out)
+
+    def __iter__(self):
+        return iter(self.names())
+
+
 class MemFS(object):
-    files = {}
+    files = _Files()
     dirs = set()
     tmp = [0]
+    scratch = [None]
 
     @classmethod
     def reset(cls):
-        cls.files = {}
+        if cls.scratch[0] is None:
+            cls.scratch[0] = _tempfile.mkdtemp(prefix="verif-fs-")
+            _atexit.register(_shutil.rmtree, cls.scratch[0], True)
+        _os.chdir(cls.scratch[0])
+        for entry in _os.listdir("."):
+            p = _os.path.join(".", entry)
+            if _os.path.isdir(p):
+                _shutil.rmtree(p, True)
+            else:
+                _os.unlink(p)
+        _os.makedirs("tmp", exist_ok=True)
+        _tempfile.tempdir = _os.path.abspath("tmp")     # temporary files of the code under test land in the scratch dir
+        cls.files = _Files()
         cls.dirs = set()
         cls.tmp[0] = 0
 
@@ -125,7 +188,7 @@ class ShimIO(object):
 class _ShimPath(object):
     @staticmethod
     def isdir(p):
-        return p in MemFS.dirs
+        return p in MemFS.dirs or _os.path.isdir(p)
 
     @staticmethod
     def join(*a):
@@ -141,7 +204,7 @@ class ShimOS(object):
 
     @staticmethod
     def listdir(p):
-        return sorted(n[len(p) + 1:] for n in MemFS.files if n.startswith(p + "/") and "/" not in n[len(p) + 1:])
+        return sorted(n[len(p) + 1:] for n in MemFS.files.names() if n.startswith(p + "/") and "/" not in n[len(p) + 1:])
 
 
 class _GzReader(object):
@@ -233,8 +296,7 @@ def install():
             mod.io = ShimIO
     transform.os = ShimOS
     grammaroutput.open = mem_open
-    misc.gzip = ShimGzip
-    misc.tempfile = ShimTempfile
+    # misc.gunzip runs for real (gzip, tempfile) on the scratch directory
     reset_function_state()
 
 
@@ -247,6 +309,11 @@ def reset_function_state():
 
 def put(name, text, encoding="utf-8"):
     MemFS.files[name] = text.encode(encoding)
+
+
+def mkdir(name):
+    MemFS.dirs.add(name)
+    _os.makedirs(name, exist_ok=True)
 
 
 def put_gz(name, text, encoding="utf-8"):
